@@ -37,6 +37,10 @@ CHECKS = {
           "Each case is parsed (and evaluated when it parses) in a worker process that announces the case index in a memory-mapped file before running it under catch_unwind; a worker that panics, dies by a signal or abort, or makes no progress within the stall limit is attributed to that case and restarted behind it. The verdict is: no case of the enumerated space crashes or hangs, in either profile.",
           "Values are not judged. Multi-edit corruptions and token strings beyond the length bound are outside the bound; the stall limit is 8 s (quick) / 30 s (thorough); worker address space is limited to 4 GiB.",
           "DESIGN.md §4 C05"),
+  "C14": ("exhaustive enumeration of literal lattices (every day incl. impossible days of 16-22 boundary years; every second of the day x fraction-digit counts x digit patterns; every whole-minute offset -14:59..+14:59 x seconds variants and the first rejected hours; every zone identifier of the zone database; date-time products; duration component products; every single-character corruption of valid literals) against a reference literal grammar and printer",
+          "Each literal is read through four paths (date()/time()/date and time()/duration(), the @-literal, the TryFrom/FromStr API, the xsd input conversion). A literal the reference grammar accepts must be accepted on every path, print as the reference's canonical text, expose the written components, and string(v) must read back as an equal value; a literal the grammar rejects must be null on every path. Failures are attributed to the single feature (year, fraction, zone, offset) whose neutralisation makes the literal behave.",
+          "Trusts reftime.rs (no chrono, no floating point). Year 0000, offset minutes above 59, more than nine fraction digits and `PT1.S` (pinned as valid by the repository's tests) are left unspecified. Times of day in named zones are only checked for acceptance and printing.",
+          "DESIGN.md §4 C14"),
   "C06": ("bounded exhaustive enumeration of syntax trees (every constructor in every slot of every constructor, depth-3 spines) x parenthesisations x layouts, and of every string escape of every code point, against a precedence-table unparser",
           "Every tree of the bounded space is rendered fully parenthesised, minimally parenthesised and with each needed pair removed, in six token-preserving layouts, and parsed by the real parser; the parsed tree is compared with the generating tree. All 1 114 112 code points in every escape spelling and all 1 048 576 surrogate pairs are lexed. A coverage statement within the depth bound, not a sample.",
           "Trusts the transcribed precedence table in harness/vh/src/term.rs (validated by this run itself: a wrong table shows up as a mismatch) and AstNode's derived PartialEq. Trees deeper than 3 are outside the bound.",
